@@ -40,7 +40,7 @@ theorem ts_step_mod (b0 p j : Nat) :
   constructor
   · intro h
     by_contra hc
-    push_neg at hc
+    rw [not_or, not_not, not_not] at hc
     rw [hc.1, hc.2] at h
     simp at h
   · intro h hc
@@ -137,5 +137,166 @@ theorem divStep_TS {α : Type} (dv : U128 → Go.GoM (U128 × UInt64)) (j : Nat)
     · refine ⟨q, (if (r != 0) = true then tv else trunc), n - j, ⟨by omega, hq', htn⟩,
         Or.inr (Or.inl ⟨rfl, hz, rfl, ?_⟩)⟩
       rw [hev, if_neg (fun h => hz ((isZ_iff q).1 h))]
+
+/-! ## `Int16` helpers -/
+
+theorem i16_add (a b : Int16) (h0 : -32768 ≤ a.toInt + b.toInt) (h1 : a.toInt + b.toInt < 32768) :
+    (a + b).toInt = a.toInt + b.toInt := Int16.toInt_add_of a b h0 h1
+
+theorem i16_sub (a b : Int16) (h0 : -32768 ≤ a.toInt - b.toInt) (h1 : a.toInt - b.toInt < 32768) :
+    (a - b).toInt = a.toInt - b.toInt := Int16.toInt_sub_of a b h0 h1
+
+theorem i16_le_iff (a k : Int16) : decide (a ≤ k) = true ↔ a.toInt ≤ k.toInt := by
+  rw [decide_eq_true_eq, Int16.le_iff_toInt_le]
+
+theorem i16_lt_iff (a k : Int16) : decide (a < k) = true ↔ a.toInt < k.toInt := by
+  rw [decide_eq_true_eq, Int16.lt_iff_toInt_lt]
+
+theorem i16_ge_iff (a k : Int16) : decide (a ≥ k) = true ↔ k.toInt ≤ a.toInt := by
+  rw [decide_eq_true_eq, ge_iff_le, Int16.le_iff_toInt_le]
+
+theorem i16_gt_iff (a k : Int16) : decide (a > k) = true ↔ k.toInt < a.toInt := by
+  rw [decide_eq_true_eq, gt_iff_lt, Int16.lt_iff_toInt_lt]
+
+/-! ## one statement of the ladder -/
+
+/-- `if exp <= -j { dSig, rem = dSig.divJ(); … }` of the half `exp < 0`: the next statement starts in
+    a truncation state again (`exp = -n`, `dExp = oExp - n`) -/
+theorem stepL_spec {α : Type} (dv : U128 → Go.GoM (U128 × UInt64)) (j : Nat) (hdv : DivSpec dv (10 ^ j))
+    (jj : Int16) (hjj : jj.toInt = j) (hj : j ≤ 8) (c : Bool) (oExp : Int16)
+    (next : U128 → Int16 → Int16 → Int8 → Go.GoM α) (b0 n0 : Nat) (hb0 : 0 < b0) (hn0 : n0 ≤ 12287)
+    (ho0 : 0 ≤ oExp.toInt) (ho1 : oExp.toInt ≤ 12287)
+    (dSig : U128) (dExp exp : Int16) (trunc : Int8) (n : Nat)
+    (h : TS 1 b0 n0 dSig n trunc) (hexp : exp.toInt = -(n : Int)) (hdE : dExp.toInt = oExp.toInt - n)
+    (hc : c = true → j ≤ n) :
+    ∃ dS' dE' x' t' n', TS 1 b0 n0 dS' n' t' ∧ x'.toInt = -(n' : Int) ∧ dE'.toInt = oExp.toInt - n' ∧
+      stepL dv c jj oExp next dSig dExp exp trunc = next dS' dE' x' t' := by
+  have hnn : n ≤ n0 := h.1
+  obtain ⟨q, t, n', hTS, hcase⟩ := divStep_TS dv j hdv c 1 b0 n0 hb0 dSig n trunc h hc
+    (fun q t => next q oExp 0 t) (fun q t => next q (dExp + jj) (exp + jj) t) (next dSig dExp exp trunc)
+  unfold stepL
+  rcases hcase with ⟨hct, _, hn', e⟩ | ⟨hct, _, hn', e⟩ | ⟨_, hq, ht, hn', e⟩
+  · refine ⟨q, oExp, 0, t, n', hTS, ?_, ?_, e⟩
+    · rw [hn']; rfl
+    · rw [hn']; simp
+  · have hjn := hc hct
+    refine ⟨q, dExp + jj, exp + jj, t, n', hTS, ?_, ?_, e⟩
+    · rw [i16_add _ _ (by omega) (by omega), hexp, hjj, hn']; omega
+    · rw [i16_add _ _ (by omega) (by omega), hdE, hjj, hn']; omega
+  · refine ⟨dSig, dExp, exp, trunc, n, h, hexp, hdE, e⟩
+
+/-- `if exp >= j { oSig, rem = oSig.divJ(); … }` of the half `exp > 0` -/
+theorem stepR_spec {α : Type} (dv : U128 → Go.GoM (U128 × UInt64)) (j : Nat) (hdv : DivSpec dv (10 ^ j))
+    (jj : Int16) (hjj : jj.toInt = j) (hj : j ≤ 8) (c : Bool)
+    (next : U128 → Int16 → Int8 → Go.GoM α) (b0 n0 : Nat) (hb0 : 0 < b0) (hn0 : n0 ≤ 12287)
+    (oSig : U128) (exp : Int16) (trunc : Int8) (n : Nat)
+    (h : TS (-1) b0 n0 oSig n trunc) (hexp : exp.toInt = (n : Int)) (hc : c = true → j ≤ n) :
+    ∃ oS' x' t' n', TS (-1) b0 n0 oS' n' t' ∧ x'.toInt = (n' : Int) ∧
+      stepR dv c jj next oSig exp trunc = next oS' x' t' := by
+  have hnn : n ≤ n0 := h.1
+  obtain ⟨q, t, n', hTS, hcase⟩ := divStep_TS dv j hdv c (-1) b0 n0 hb0 oSig n trunc h hc
+    (fun q t => next q 0 t) (fun q t => next q (exp - jj) t) (next oSig exp trunc)
+  unfold stepR
+  rcases hcase with ⟨hct, _, hn', e⟩ | ⟨hct, _, hn', e⟩ | ⟨_, hq, ht, hn', e⟩
+  · refine ⟨q, 0, t, n', hTS, ?_, e⟩
+    rw [hn']; rfl
+  · have hjn := hc hct
+    refine ⟨q, exp - jj, t, n', hTS, ?_, e⟩
+    rw [i16_sub _ _ (by omega) (by omega), hexp, hjj, hn']; omega
+  · exact ⟨oSig, exp, trunc, n, h, hexp, e⟩
+
+/-! ## the final loops -/
+
+theorem loopL_spec (oExp : Int16) (b0 n0 : Nat) (hb0 : 0 < b0) (hn0 : n0 ≤ 12287)
+    (ho0 : 0 ≤ oExp.toInt) (ho1 : oExp.toInt ≤ 12287) (s : SL) (n : Nat)
+    (h : TS 1 b0 n0 s.1 n s.2.2.2) (hexp : s.2.2.1.toInt = -(n : Int))
+    (hdE : s.2.1.toInt = oExp.toInt - n) :
+    ∃ s' : SL, forIn (m := Go.GoM) Lean.Loop.mk s (loopLBody oExp) = .ok s' ∧
+      s'.1.toNat = b0 / 10 ^ n0 ∧ s'.2.2.2 = (if b0 % 10 ^ n0 ≠ 0 then 1 else 0) ∧ s'.2.1 = oExp := by
+  apply RK.loop_inv (loopLBody oExp)
+    (fun s : SL => ∃ n : Nat, TS 1 b0 n0 s.1 n s.2.2.2 ∧ s.2.2.1.toInt = -(n : Int) ∧
+      s.2.1.toInt = oExp.toInt - n)
+    (fun s' : SL => s'.1.toNat = b0 / 10 ^ n0 ∧ s'.2.2.2 = (if b0 % 10 ^ n0 ≠ 0 then 1 else 0) ∧
+      s'.2.1 = oExp)
+    (fun s : SL => (-s.2.2.1.toInt).toNat) _ s ⟨n, h, hexp, hdE⟩
+  intro b ⟨n, h, hexp, hdE⟩
+  have hnn : n ≤ n0 := h.1
+  have hc : decide (b.2.2.1 < 0) = true → 1 ≤ n := by
+    rw [i16_lt_iff, hexp]; intro h0
+    have : (0 : Int16).toInt = 0 := rfl
+    omega
+  obtain ⟨q, t, n', hTS, hcase⟩ := divStep_TS U128.div10 1 divSpec_10 (decide (b.2.2.1 < 0)) 1 b0 n0 hb0
+    b.1 n b.2.2.2 h hc
+    (fun q t => pure (ForInStep.done (q, oExp, b.2.2.1, t)))
+    (fun q t => pure (ForInStep.yield (q, b.2.1 + 1, b.2.2.1 + 1, t)))
+    (pure (ForInStep.done (b.1, b.2.1, b.2.2.1, b.2.2.2)))
+  have h1 : (1 : Int16).toInt = 1 := rfl
+  rcases hcase with ⟨hct, _, hn', e⟩ | ⟨hct, _, hn', e⟩ | ⟨hcf, hq, ht, hn', e⟩
+  · right
+    refine ⟨(q, oExp, b.2.2.1, t), e, ?_, ?_, rfl⟩
+    · have := hTS.2.1; rw [hn', Nat.sub_zero] at this; exact this
+    · have := hTS.2.2; rw [hn', Nat.sub_zero] at this; exact this
+  · left
+    have hjn := hc hct
+    refine ⟨(q, b.2.1 + 1, b.2.2.1 + 1, t), e, ⟨n', hTS, ?_, ?_⟩, ?_⟩
+    · show (b.2.2.1 + 1).toInt = _
+      rw [i16_add _ _ (by omega) (by omega), hexp, h1, hn']; omega
+    · show (b.2.1 + 1).toInt = _
+      rw [i16_add _ _ (by omega) (by omega), hdE, h1, hn']; omega
+    · show (-(b.2.2.1 + 1).toInt).toNat < (-b.2.2.1.toInt).toNat
+      rw [i16_add _ _ (by omega) (by omega), hexp, h1]; omega
+  · right
+    have hn00 : n = 0 := by
+      have : ¬ (b.2.2.1.toInt < (0 : Int16).toInt) := by
+        rw [← i16_lt_iff]; simp [hcf]
+      have h0 : (0 : Int16).toInt = 0 := rfl
+      omega
+    refine ⟨(b.1, b.2.1, b.2.2.1, b.2.2.2), e, ?_, ?_, ?_⟩
+    · have := h.2.1; rw [hn00, Nat.sub_zero] at this; exact this
+    · have := h.2.2; rw [hn00, Nat.sub_zero] at this; exact this
+    · apply Int16.toInt_inj.1
+      show b.2.1.toInt = oExp.toInt
+      rw [hdE, hn00]; simp
+
+theorem loopR_spec (b0 n0 : Nat) (hb0 : 0 < b0) (hn0 : n0 ≤ 12287) (s : SR) (n : Nat)
+    (h : TS (-1) b0 n0 s.1 n s.2.2) (hexp : s.2.1.toInt = (n : Int)) :
+    ∃ s' : SR, forIn (m := Go.GoM) Lean.Loop.mk s loopRBody = .ok s' ∧
+      s'.1.toNat = b0 / 10 ^ n0 ∧ s'.2.2 = (if b0 % 10 ^ n0 ≠ 0 then -1 else 0) := by
+  apply RK.loop_inv loopRBody
+    (fun s : SR => ∃ n : Nat, TS (-1) b0 n0 s.1 n s.2.2 ∧ s.2.1.toInt = (n : Int))
+    (fun s' : SR => s'.1.toNat = b0 / 10 ^ n0 ∧ s'.2.2 = (if b0 % 10 ^ n0 ≠ 0 then -1 else 0))
+    (fun s : SR => s.2.1.toInt.toNat) _ s ⟨n, h, hexp⟩
+  intro b ⟨n, h, hexp⟩
+  have hnn : n ≤ n0 := h.1
+  have h0 : (0 : Int16).toInt = 0 := rfl
+  have hc : decide (b.2.1 > 0) = true → 1 ≤ n := by
+    rw [i16_gt_iff, hexp]; intro h0
+    omega
+  obtain ⟨q, t, n', hTS, hcase⟩ := divStep_TS U128.div10 1 divSpec_10 (decide (b.2.1 > 0)) (-1) b0 n0 hb0
+    b.1 n b.2.2 h hc
+    (fun q t => pure (ForInStep.done (q, b.2.1, t)))
+    (fun q t => pure (ForInStep.yield (q, b.2.1 - 1, t)))
+    (pure (ForInStep.done (b.1, b.2.1, b.2.2)))
+  have h1 : (1 : Int16).toInt = 1 := rfl
+  rcases hcase with ⟨hct, _, hn', e⟩ | ⟨hct, _, hn', e⟩ | ⟨hcf, hq, ht, hn', e⟩
+  · right
+    refine ⟨(q, b.2.1, t), e, ?_, ?_⟩
+    · have := hTS.2.1; rw [hn', Nat.sub_zero] at this; exact this
+    · have := hTS.2.2; rw [hn', Nat.sub_zero] at this; exact this
+  · left
+    have hjn := hc hct
+    refine ⟨(q, b.2.1 - 1, t), e, ⟨n', hTS, ?_⟩, ?_⟩
+    · show (b.2.1 - 1).toInt = _
+      rw [i16_sub _ _ (by omega) (by omega), hexp, h1, hn']; omega
+    · show (b.2.1 - 1).toInt.toNat < b.2.1.toInt.toNat
+      rw [i16_sub _ _ (by omega) (by omega), hexp, h1]; omega
+  · right
+    have hn00 : n = 0 := by
+      have : ¬ ((0 : Int16).toInt < b.2.1.toInt) := by
+        rw [← i16_gt_iff]; simp [hcf]
+      omega
+    refine ⟨(b.1, b.2.1, b.2.2), e, ?_, ?_⟩
+    · have := h.2.1; rw [hn00, Nat.sub_zero] at this; exact this
+    · have := h.2.2; rw [hn00, Nat.sub_zero] at this; exact this
 
 end AD
